@@ -340,6 +340,77 @@ def pre_cell_threshold(C):
     return [('index-is-a-size_t', i >= 0), ('cell-non-null', z3.And(o.at(lst, i, 'int') > 0, o.f(o.at(lst, i, 'int'), 'cell.cell_type_') > 0))]
 
 
+# ---- D(-1): run() registers every live face of every cell, and numbers it with its position in face_lst_ ---------------------------------------------
+RUN_CLS = {1: 'contact_node_node_via_coupling', 0: 'contact_node_face_via_spring', 2: 'contact_face_face_via_coupling'}
+
+
+def registered(view, this, c, j):
+    """face slot j of cell c is registered: its global id is a position of this->face_lst_ and that position holds a pointer to it"""
+    fl = view.sub(this, CM + 'face_lst_')
+    F = view.elem(view.sub(c, 'cell.face_lst_'), j)
+    gid = view.f(F, 'face.global_face_id_')
+    return z3.Implies(view.f(F, 'face.is_used_'), z3.And(gid >= 0, gid < view.len(fl), view.at(fl, gid, 'int') == F))
+
+
+def inv_collect(L):
+    if not L.st.ghost.get('collect'): return []
+    cur = L.cur
+    this = L.this.ref if hasattr(L.this, 'ref') else L.this
+    c = L.var('c'); c = c.ref if hasattr(c, 'ref') else c
+    fl = cur.sub(this, CM + 'face_lst_')
+    faces_c = cur.sub(c, 'cell.face_lst_')
+    if L.range_info is not None:          # for(auto& f : c->face_lst_)
+        i = L.index; same = L.container.ref == faces_c
+    else:                                  # an index loop over the slots of c->face_lst_ (for(size_t k = ...; ...; k++))
+        nm = L.counter_name
+        if nm is None: return [('the-face-loop-has-a-recognisable-counter', z3.BoolVal(False))]
+        i = L.var(nm); same = z3.BoolVal(True)
+    return [('numbering-follows-the-list', L.var('face_global_id') == cur.len(fl)),
+            ('index-in-range', z3.And(i >= 0, i <= cur.len(faces_c))),
+            ('the-faces-are-those-of-the-cell', same),
+            ('every-live-face-visited-so-far-is-registered', QForall(lambda j: z3.Implies(z3.And(j >= 0, j < i), registered(cur, this, c, j)), 1, 'registered prefix'))]
+
+
+def setup_collect(eng, st, args, this):
+    st.ghost['collect'] = True
+
+
+def pre_collect(C):
+    o = C.old
+    c = val(C, 'c').ref
+    fl = o.sub(C.this, CM + 'face_lst_')
+    return [('cell-non-null', c > 0), ('numbering-follows-the-list', val(C, 'face_global_id') == o.len(fl)), ('list-length-nonneg', o.len(fl) >= 0),
+            ('the-list-of-registered-faces-is-not-a-container-of-a-cell', fl != o.sub(c, 'cell.face_lst_'))]
+
+
+def post_collect(C):
+    n = C.new
+    c = val(C, 'c').ref
+    fl = n.sub(C.this, CM + 'face_lst_')
+    faces_c = n.sub(c, 'cell.face_lst_')
+    return [('every-live-face-of-the-cell-is-registered-under-its-position-in-the-list', QForall(lambda j: z3.Implies(z3.And(j >= 0, j < n.len(faces_c)), registered(n, C.this, c, j)), 1, 'all registered')),
+            ('numbering-still-follows-the-list', val(C, 'face_global_id', C.post_state) == n.len(fl))]
+
+
+def post_collect_prologue(C):
+    if C.outcome != 'loop-entry': return []
+    n = C.new
+    fl = n.sub(C.this, CM + 'face_lst_')
+    return [('the-list-of-registered-faces-starts-empty', n.len(fl) == 0), ('the-numbering-starts-at-zero', val(C, 'face_global_id', C.post_state) == 0)]
+
+
+def stage(qn, tag):
+    def on_call(C, st):
+        st.ghost['stages'] = st.ghost.get('stages', ()) + (tag,)
+    return Contract(qn, PROP, frame=lambda C: [('*', None)], on_call=on_call, name=qn + ' (any effect; call recorded)')
+
+
+def post_run_stages(C):
+    if C.outcome not in (None, 'ret', 'end'): return []
+    got = C.post_state.ghost.get('stages', ())
+    return [('the-stages-run-once-each-in-the-order-boxes-grid-contacts', z3.BoolVal(tuple(got) == ('boxes', 'grid', 'contacts')))]
+
+
 def pre_node_voxel(C):
     o = C.old
     g = grid(o, C.this)
@@ -376,7 +447,9 @@ def post_node_voxel(C, curvature_rule=True):
     idx = [z3.ToInt((p[a] - o.f(g, G + 'min_%s_' % ax)) / s) for a, ax in enumerate(AX)]
     cont = C.post_state.ghost.get('stopped_container')
     if cont is None: return [('candidate-list-known', z3.BoolVal(False))]
-    return [('candidates-are-the-faces-stored-in-the-voxel-of-the-node', cont.ref == o.elem(lst, idx[2] * nb[0] * nb[1] + idx[1] * nb[0] + idx[0]))]
+    return [('candidates-are-the-faces-stored-in-the-voxel-of-the-node', cont.ref == o.elem(lst, idx[2] * nb[0] * nb[1] + idx[1] * nb[0] + idx[0])),
+            # a dead slot keeps whatever position node::reset() left in it (the origin): it must never take part in the contact search
+            ('only-live-nodes-search-for-contacts', o.f(n1.ref, 'node.is_used_'))]
 
 
 def setup_maxdot(eng, st, args, this):
@@ -421,6 +494,17 @@ def build(reg, cfg):
         reg.add(Contract('contact_node_face_via_spring::resolve_contacts', PROP, pre=pre_node_voxel, post=lambda C: post_node_voxel(C, False), slice_loop=1, prefix_loop=2,
                          safety={'bounds', 'wrap', 'narrowing'}, use=[flat_contract()],
                          name='contact_node_face_via_spring::resolve_contacts::<voxel of the node> (D4, model 0)'))
+    m_ = cfg['SIMUCELL3D_VERIF_CONTACT_MODEL_INDEX']
+    reg.add_loop(LoopContract(RUN_CLS[m_] + '::run', 1, inv_collect, modifies=['face.global_face_id_', 'vec.len', 'vec.data.int', 'vec.epoch']))
+    reg.add(Contract(RUN_CLS[m_] + '::run', PROP, pre=pre_collect, post=post_collect, slice_loop=0, setup=setup_collect, safety={'bounds'},
+                     **({'prefix_loop': 2} if m_ in (1, 2) else {}),
+                     name=RUN_CLS[m_] + '::run::<faces of one cell are registered and numbered> (D-1)'))
+    # the statements after the registration loop (suffix that starts one statement after loop 0)
+    reg.add(Contract(RUN_CLS[m_] + '::run', PROP, post=post_run_stages, suffix_loop=0, suffix_back=-1, name=RUN_CLS[m_] + '::run::<stages> (composition of D1, D3, D4)',
+                     use=[stage('contact_model_abstract::update_face_aabbs', 'boxes'), stage('contact_model_abstract::store_face_in_uspg', 'grid'),
+                          stage(RUN_CLS[m_] + ('::resolve_contacts' if m_ == 0 else '::resolve_all_contacts'), 'contacts')]))
+    reg.add_loop(LoopContract(RUN_CLS[m_] + '::run', 'accumulate#0', lambda L: [], modifies=[]))      # the face count used for reserve(): reads only
+    reg.add(Contract(RUN_CLS[m_] + '::run', PROP, post=post_collect_prologue, prefix_loop=0, name=RUN_CLS[m_] + '::run::<prologue: empty list, numbering from zero> (D-1)'))
     lemmas(reg)
 
 
